@@ -333,8 +333,17 @@ fn run_ram(r: &mut Rng, n: u64) {
         outln!("r{}\tram\t{}\t{}\t{}\t{}", i, hex(&v), if corrupt < 4 { 1 } else { 0 }, abstract_descr, out);
     }
 }
+fn show_ref(x: sourcemap::Result<Option<sourcemap::SourceMapRef>>) -> String {
+    match x { Ok(None) => "none".into(), Ok(Some(sourcemap::SourceMapRef::Ref(u))) => format!("ref {}", hex(u.as_bytes())), Ok(Some(sourcemap::SourceMapRef::LegacyRef(u))) => format!("legacy {}", hex(u.as_bytes())), Err(_) => "err".into() }
+}
+// both entry points: the slice form and the reader form (read in chunks of `chunk` bytes); they must agree
+fn locate_both(text: &[u8], chunk: usize) -> String {
+    let a = match catch_unwind(AssertUnwindSafe(|| sourcemap::locate_sourcemap_reference_slice(text))) { Ok(x) => show_ref(x), Err(_) => "panic".into() };
+    let b = match catch_unwind(AssertUnwindSafe(|| sourcemap::locate_sourcemap_reference(Chunked { data: text, pos: 0, sizes: vec![chunk], k: 0 }))) { Ok(x) => show_ref(x), Err(_) => "panic".into() };
+    if a == b { a } else { format!("entry-points-differ slice=[{}] reader=[{}]", a, b) }
+}
 fn locate_case(id: &str, text: &[u8]) {
-    let out = match catch_unwind(AssertUnwindSafe(|| sourcemap::locate_sourcemap_reference_slice(text))) { Ok(Ok(None)) => "none".into(), Ok(Ok(Some(sourcemap::SourceMapRef::Ref(u)))) => format!("ref {}", hex(u.as_bytes())), Ok(Ok(Some(sourcemap::SourceMapRef::LegacyRef(u)))) => format!("legacy {}", hex(u.as_bytes())), Ok(Err(_)) => "err".into(), Err(_) => "panic".into() };
+    let out = locate_both(text, 1 + text.len() % 97);
     outln!("{}\tlocate\t{}\t{}", id, hex(text), out);
 }
 fn run_locate(r: &mut Rng, n: u64) {
@@ -349,7 +358,7 @@ fn run_locate(r: &mut Rng, n: u64) {
     for i in 0..n {
         let k = r.below(5); let mut text = String::new();
         for j in 0..k { text.push_str(parts[r.below(parts.len() as u64) as usize]); if j + 1 < k || r.below(2) == 0 { text.push_str(if r.below(2) == 0 { "\n" } else { "\r\n" }); } }
-        let out = match sourcemap::locate_sourcemap_reference_slice(text.as_bytes()) { Ok(None) => "none".into(), Ok(Some(sourcemap::SourceMapRef::Ref(u))) => format!("ref {}", hex(u.as_bytes())), Ok(Some(sourcemap::SourceMapRef::LegacyRef(u))) => format!("legacy {}", hex(u.as_bytes())), Err(_) => "err".into() };
+        let out = locate_both(text.as_bytes(), 1 + r.below(40) as usize);
         outln!("r{}\tlocate\t{}\t{}", i, hex(text.as_bytes()), out);
     }
 }
@@ -993,6 +1002,70 @@ fn run_api(r: &mut Rng, n: u64, group: &str) {
                             chk(&format!("step{} {}: lookup {:?}", step, name, q), agrees(&sm, q)); }
                     }
                 }
+                "index" => {    // C08: section accessors and in-place section edits tell the same story as lookup and flatten
+                    let (secs, d, extent) = gen_sections(r, 1, 0); descr = d;
+                    let offs: Vec<(u32, u32)> = secs.iter().map(|s| s.get_offset()).collect();
+                    let mut idx = if r.below(2) == 0 { sourcemap::SourceMapIndex::new(Some("f".into()), secs) } else { sourcemap::SourceMapIndex::new_ram_bundle_compatible(Some("f".into()), secs, if r.below(2) == 0 { Some(vec![Some(1), None]) } else { None }, Some(vec!["p".into()])) };
+                    let n = idx.get_section_count();
+                    chk("section count", n as usize == offs.len() && idx.sections().count() == offs.len());
+                    chk("get_section(i)", (0..n + 2).all(|k| idx.get_section(k).map(|s| s.get_offset()) == offs.get(k as usize).copied()) && idx.get_section(!0).is_none());
+                    chk("offset accessors", idx.sections().all(|s| s.get_offset() == (s.get_offset_line(), s.get_offset_col()) && s.get_url().is_none() && s.get_sourcemap().is_some()));
+                    chk("is_for_ram_bundle", idx.is_for_ram_bundle() == (idx.x_facebook_offsets().is_some() && idx.x_metro_module_paths().is_some()));
+                    chk("get_file/set_file", idx.get_file() == Some("f") && { idx.set_file(None); idx.get_file().is_none() } && { idx.set_file(Some("g")); idx.get_file() == Some("g") });
+                    // answers before the edit, at positions inside every section
+                    // a token without a source has no original position: the format does not carry one for it
+                    let view = |t: &sourcemap::Token| if t.has_source() { format!("{}/{}/{}/{}", opt_hex(t.get_source()), t.get_src_line(), t.get_src_col(), opt_hex(t.get_name())) } else { "nosource".to_string() };
+                    let qs: Vec<(u32, u32)> = (0..12).map(|_| (r.below(extent as u64 + 2) as u32, r.below(12) as u32)).collect();
+                    let before: Vec<Option<String>> = qs.iter().map(|q| idx.lookup_token(q.0, q.1).map(|t| view(&t))).collect();
+                    let owner = |q: &(u32, u32)| -> Option<usize> { offs.iter().rposition(|o| o <= q) };
+                    // set_url does not disturb anything else
+                    let k = r.below(n as u64) as u32;
+                    idx.get_section_mut(k).unwrap().set_url(Some("u.map"));
+                    chk("set_url", idx.get_section(k).unwrap().get_url() == Some("u.map") && idx.get_section(k).unwrap().get_offset() == offs[k as usize] && (0..n).filter(|j| *j != k).all(|j| idx.get_section(j).unwrap().get_url().is_none()));
+                    chk("lookups after set_url", qs.iter().zip(&before).all(|(q, b)| &idx.lookup_token(q.0, q.1).map(|t| view(&t)) == b));
+                    chk("get_section_mut past the end", idx.get_section_mut(n).is_none());
+                    // written and read back, the URL and the offsets are there
+                    let mut o = vec![]; idx.to_writer(&mut o).unwrap();
+                    match sourcemap::SourceMapIndex::from_slice(&o) { Ok(back) => { chk("url survives write+read", back.get_section_count() == n && (0..n).all(|j| back.get_section(j).unwrap().get_url() == idx.get_section(j).unwrap().get_url() && back.get_section(j).unwrap().get_offset() == offs[j as usize]));
+                            chk("lookups after write+read", qs.iter().zip(&before).all(|(q, b)| &back.lookup_token(q.0, q.1).map(|t| view(&t)) == b)); }
+                        Err(_) => chk("index reads back", false) }
+                    // taking one section's map away: positions owned by that section resolve to nothing, all others are unchanged, flatten refuses
+                    let taken = idx.get_section_mut(k).unwrap().get_sourcemap_mut().is_some();
+                    let old = idx.get_section(k).unwrap().get_sourcemap().cloned();
+                    idx.get_section_mut(k).unwrap().set_sourcemap(None);
+                    chk("get_sourcemap_mut", taken);
+                    chk("set_sourcemap(None)", idx.get_section(k).unwrap().get_sourcemap().is_none());
+                    chk("lookups after set_sourcemap(None)", qs.iter().zip(&before).all(|(q, b)| { let a = idx.lookup_token(q.0, q.1).map(|t| view(&t)); if owner(q) == Some(k as usize) { a.is_none() } else { &a == b } }));
+                    chk("flatten refuses unresolved", matches!(idx.flatten(), Err(sourcemap::Error::CannotFlatten(_))));
+                    // putting it back restores every answer
+                    idx.get_section_mut(k).unwrap().set_sourcemap(old);
+                    chk("lookups after restore", qs.iter().zip(&before).all(|(q, b)| &idx.lookup_token(q.0, q.1).map(|t| view(&t)) == b));
+                    chk("flatten after restore agrees", match idx.flatten() { Ok(f) => qs.iter().zip(&before).all(|(q, b)| b.is_none() || &f.lookup_token(q.0, q.1).map(|t| view(&t)) == b), Err(_) => true });   // when flatten may refuse is the index stream's business
+                }
+                "ref" => {      // C18: what is done with a located reference: get_url, resolve, resolve_path, get_embedded_sourcemap
+                    let rels = [("a.map", "a.map"), ("sub/b.map", "sub/b.map"), ("../c.map", "../c.map"), ("./d.map", "d.map"), ("e.js.map?x=1", "e.js.map?x=1")];
+                    let (rel, norm) = rels[r.below(rels.len() as u64) as usize]; let legacy = r.below(2) == 0;
+                    let text = format!("foo();\n//{} sourceMappingURL={}\n", if legacy { "@" } else { "#" }, rel); descr = hex(text.as_bytes());
+                    let rf = sourcemap::locate_sourcemap_reference_slice(text.as_bytes()).unwrap().unwrap();
+                    chk("variant", matches!(rf, sourcemap::SourceMapRef::LegacyRef(_)) == legacy);
+                    chk("get_url", rf.get_url() == rel);
+                    let dirs = ["http://x/dir/", "https://h:8080/", "http://x/a/b/c/"]; let dir = dirs[r.below(3) as usize];
+                    let want = if norm.starts_with("../") { let up = dir.trim_end_matches('/'); let parent = if up.matches('/').count() > 2 { &up[..up.rfind('/').unwrap() + 1] } else { dir }; format!("{}{}", parent, &norm[3..]) } else { format!("{}{}", dir, norm) };
+                    chk("resolve", rf.resolve(&format!("{}min.js", dir)) == Some(want));
+                    chk("resolve: base is not a URL", rf.resolve("not a url").is_none());
+                    if !rel.contains('?') { let pw = if norm.starts_with("../") { format!("/p/{}", &norm[3..]) } else { format!("/p/q/{}", norm) };
+                        chk("resolve_path", rf.resolve_path(std::path::Path::new("/p/q/min.js")) == Some(std::path::PathBuf::from(pw))); }
+                    chk("not embedded", matches!(rf.get_embedded_sourcemap(), Ok(None)));
+                    let abs = sourcemap::SourceMapRef::Ref("http://y/z.map".into());
+                    chk("absolute reference", abs.resolve(&format!("{}min.js", dir)) == Some("http://y/z.map".to_string()));
+                    // a data URL is never resolved against anything, and it is the embedded map
+                    let sm = gen_map(r, false); let du = sm.to_data_url().unwrap();
+                    let text2 = format!("x\n//# sourceMappingURL={}", du);
+                    let rf2 = sourcemap::locate_sourcemap_reference_slice(text2.as_bytes()).unwrap().unwrap();
+                    chk("data url: get_url", rf2.get_url() == du);
+                    chk("data url: resolve", rf2.resolve("http://x/min.js").is_none() && rf2.resolve_path(std::path::Path::new("/p/min.js")).is_none());
+                    chk("data url: embedded", match rf2.get_embedded_sourcemap() { Ok(Some(sourcemap::DecodedMap::Regular(m))) => { let mut a = vec![]; let mut b = vec![]; m.to_writer(&mut a).unwrap(); sm.to_writer(&mut b).unwrap(); a == b } _ => false });
+                }
                 "rewrite" => {  // C09 / C08: remove_names, flatten_and_rewrite
                     let sm = gen_map(r, false); descr = map_in(&sm);
                     let mut nn = sm.clone(); nn.remove_names();
@@ -1137,6 +1210,8 @@ fn main() {
         "api_builder" => run_api(&mut r, n, "builder"),
         "api_view" => run_api(&mut r, n, "view"),
         "api_ram" => run_api(&mut r, n, "ram"),
+        "api_index" => run_api(&mut r, n, "index"),
+        "api_ref" => run_api(&mut r, n, "ref"),
         "roundtrip" => run_roundtrip(&mut r, n),
         "lookup" => run_lookup(&mut r, n),
         "order" => run_order(&mut r, n),
